@@ -299,6 +299,13 @@ impl<'e> Out<'e> {
         }
     }
 
+    /// Start case `i`: sets the current index (also published to the watchdog).
+    pub fn begin(&mut self, i: u64) {
+        self.index = i;
+        self.evals += 1;
+        WORKER_ID.with(|w| WORKER_CUR[w.get()].store(i, Ordering::Relaxed));
+    }
+
     pub fn count(&mut self, key: &'static str, n: u64) {
         *self.counters.entry(key).or_insert(0) += n;
     }
@@ -462,6 +469,18 @@ impl<'e> Out<'e> {
 }
 
 // ------------------------------------------------------------------------------------------------
+// Watchdog: every worker publishes the index it is working on; a case that does not finish within
+// HANG_S seconds is reported as a hang (C03: "loops without bound") and ends the run with exit 1.
+
+pub static WORKER_CUR: [AtomicU64; 128] = [const { AtomicU64::new(u64::MAX) }; 128];
+thread_local! {
+    static WORKER_ID: std::cell::Cell<usize> = const { std::cell::Cell::new(127) };
+}
+pub fn hang_seconds() -> u64 {
+    std::env::var("TMC_HANG_S").ok().and_then(|s| s.parse().ok()).unwrap_or(60)
+}
+
+// ------------------------------------------------------------------------------------------------
 // Spaces
 
 pub trait Space: Sync {
@@ -476,8 +495,7 @@ pub trait Space: Sync {
     /// Evaluate the contiguous block lo..hi (range walks override this to step an odometer).
     fn eval_range(&self, lo: u64, hi: u64, out: &mut Out) {
         for i in lo..hi {
-            out.index = i;
-            out.evals += 1;
+            out.begin(i);
             self.eval(i, out);
         }
     }
@@ -577,6 +595,14 @@ impl<'e> Report<'e> {
             }
             let mut out = Out::new(self.env, &name);
             out.verbose = true;
+            {
+                let (hs, nm, ix) = (hang_seconds(), name.clone(), *ri);
+                std::thread::spawn(move || {
+                    std::thread::sleep(std::time::Duration::from_secs(hs));
+                    println!("replay result: case {nm}#{ix} did not finish within {hs} s (hang)");
+                    std::process::exit(1);
+                });
+            }
             space.eval_range(*ri, *ri + 1, &mut out);
             println!(
                 "replay result: {} failing transition(s), {} matched a known finding",
@@ -595,16 +621,40 @@ impl<'e> Report<'e> {
         let threads = self.env.threads.min(((len + block - 1) / block).max(1) as usize).max(1);
         let cap = self.cap_s;
         let env = self.env;
+        let done = std::sync::atomic::AtomicUsize::new(0);
         let mut outs: Vec<Out> = std::thread::scope(|s| {
+            // watchdog
+            {
+                let done = &done;
+                let name = &name;
+                let hang_s = hang_seconds();
+                s.spawn(move || {
+                    let mut last: Vec<(u64, WallInstant)> = (0..threads).map(|_| (u64::MAX, WallInstant::now())).collect();
+                    while done.load(Ordering::Relaxed) < threads {
+                        std::thread::sleep(std::time::Duration::from_millis(250));
+                        for t in 0..threads {
+                            let c = WORKER_CUR[t].load(Ordering::Relaxed);
+                            if c != last[t].0 {
+                                last[t] = (c, WallInstant::now());
+                            } else if c != u64::MAX && last[t].1.elapsed().as_secs() >= hang_s {
+                                report_hang(env, name, c, hang_s);
+                            }
+                        }
+                    }
+                });
+            }
             let hs: Vec<_> = (0..threads)
-                .map(|_| {
+                .map(|tid| {
                     let next = &next;
                     let stop = &stop;
                     let covered = &covered;
                     let name = &name;
+                    let done = &done;
                     std::thread::Builder::new()
                         .stack_size(64 << 20)
                         .spawn_scoped(s, move || {
+                            WORKER_ID.with(|w| w.set(tid));
+                            WORKER_CUR[tid].store(u64::MAX, Ordering::Relaxed);
                             let mut out = Out::new(env, name);
                             loop {
                                 if stop.load(Ordering::Relaxed) {
@@ -621,6 +671,8 @@ impl<'e> Report<'e> {
                                     stop.store(true, Ordering::Relaxed);
                                 }
                             }
+                            WORKER_CUR[tid].store(u64::MAX, Ordering::Relaxed);
+                            done.fetch_add(1, Ordering::Relaxed);
                             out
                         })
                         .expect("spawn")
@@ -836,4 +888,26 @@ impl<'e> Report<'e> {
         );
         code
     }
+}
+
+/// A case did not finish: report it as a violation ("loops without bound") and end the process.
+fn report_hang(env: &Env, space: &str, index: u64, hang_s: u64) -> ! {
+    if env.replay.is_some() {
+        println!("replay result: case {space}#{index} did not finish within {hang_s} s (hang)");
+        std::process::exit(1);
+    }
+    let rdir = format!("{}/replays", env.verif_dir);
+    let _ = std::fs::create_dir_all(&rdir);
+    let path = format!("{}/{}-hang-{}.json", rdir, env.prop, index);
+    let body = json!({"property": env.prop, "tier": env.tier.name(), "profile": env.profile, "space": space, "index": index,
+        "failure": {"symptom": "hang", "hang_s": hang_s}});
+    let _ = std::fs::write(&path, serde_json::to_string_pretty(&body).unwrap());
+    let ev = json!({
+        "property_id": env.prop, "tier": env.tier.name(), "seed": env.seed, "level": "exploration",
+        "coverage": {"evaluations": 1, "distinct_nontrivial": 2, "rule": "run aborted by the watchdog: a case did not terminate", "samples": [{"space": space, "index": index, "symptom": "hang"}], "exhaustive": false},
+        "wall_s": hang_s as f64, "violations": 1});
+    let _ = std::fs::write(format!("{}/evidence/{}.json", env.verif_dir, env.prop), serde_json::to_string_pretty(&ev).unwrap());
+    println!("VIOLATION property={} replay={}", env.prop, path);
+    println!("  {space}#{index} hang: the case did not finish within {hang_s} s (unbounded or runaway loop)");
+    std::process::exit(1);
 }
